@@ -373,7 +373,7 @@ func C09(c *ev.Ctx) {
 	steps := c.Pick(80, 200)
 	var evs []map[string]any
 	segTarget := map[int]string{}
-	sizes := []uint64{0, 1, 2, 7, 100}
+	sizes := []uint64{0, 1, 2, 7, 100, 15, 16, 17, 32, 48, 64, 128, 255, 256, 1000}
 	for hi := 0; hi < nh; hi++ {
 		n := sizes[rr.IntN(len(sizes))]
 		tn := diskTargetNames[hi%len(diskTargetNames)]
